@@ -3,6 +3,7 @@ mod alloc;
 mod c09;
 mod c10;
 mod c12;
+mod c12n;
 mod c13;
 mod c14;
 mod c15;
@@ -30,6 +31,7 @@ fn main() {
         ("C09", _) => c09::run(&args, &mut rep),
         ("C10", "mux-flood") => c14::run(&args, &mut rep),
         ("C10", _) => c10::run(&args, &mut rep),
+        ("C12", "node") => c12n::run(&args, &mut rep),
         ("C12", "pool") => pool::run(&args, &mut rep),
         ("C12", _) => c12::run(&args, &mut rep),
         (p, m) => panic!("unknown property/mode {p}/{m}"),
